@@ -240,9 +240,13 @@ class Poll(BasePoller):
 
     def _updateRegistration(self, fd):
         fileno = fd.fileno() if not isinstance(fd, int) else fd
+        # (a closed object does not report its number any more: the
+        # numbers it is registered under are found by value)
+        known = [k for k, v in list(self._map.items()) if v == fd]
 
-        with contextlib.suppress(KeyError, ValueError):
-            self._poller.unregister(fileno)
+        for key in {fileno, *known}:
+            with contextlib.suppress(KeyError, ValueError):
+                self._poller.unregister(key)
 
         mask = 0
 
@@ -256,8 +260,9 @@ class Poll(BasePoller):
             self._map[fileno] = fd
         else:
             super().discard(fd)
-            with contextlib.suppress(KeyError):
-                del self._map[fileno]
+            for key in {fileno, *known}:
+                with contextlib.suppress(KeyError):
+                    del self._map[key]
 
     def addReader(self, source, fd):
         super().addReader(source, fd)
@@ -299,6 +304,21 @@ class Poll(BasePoller):
         if fd == self._ctrl_recv:
             self._read_ctrl()
             return
+
+        if not isinstance(fd, int):
+            try:
+                stale = fd.fileno() != fileno
+            except (OSError, ValueError):
+                stale = True
+            if stale:
+                # the object was closed without being discarded, and its
+                # number belongs to another descriptor by now: what is
+                # reported here is not about this object
+                self.fire(_disconnect(fd), self.getTarget(fd))
+                self._poller.unregister(fileno)
+                super().discard(fd)
+                del self._map[fileno]
+                return
 
         if event & self._disconnected_flag and not (event & select.POLLIN):
             self.fire(_disconnect(fd), self.getTarget(fd))
